@@ -37,7 +37,7 @@ FieldToks(fs, i) ==
 MethToks(ms, i) ==      \* ms: sequence of [n, emb, t]
   IF i > Len(ms) THEN <<>>
   ELSE (IF i > 1 THEN <<P(";")>> ELSE <<>>)
-       \o (IF ms[i].emb THEN Tokens(ms[i].t) ELSE <<Id(ms[i].n), P("("), P(")")>>) \o MethToks(ms, i + 1)
+       \o (IF ms[i].emb THEN Tokens(ms[i].t) ELSE <<Id(ms[i].n)>> \o Tail(Tokens(ms[i].t))) \o MethToks(ms, i + 1)     \* a method: its name and its signature (the function type without "func")
 Tokens(t) ==
   CASE t.k = "basic" -> <<Id(t.n)>>
     [] t.k = "qual" -> <<Id(t.pkg), P("."), Id(t.n)>>
@@ -64,7 +64,7 @@ IdOf(tok) == tok.v
 Is(tok, x) == tok.k = "p" /\ tok.v = x
 BasicNames == BasicKinds
 At(ts, p) == IF p <= Len(ts) THEN ts[p] ELSE P("EOF")
-RECURSIVE PType(_, _), PList(_, _, _), PFields(_, _, _), PMeths(_, _, _), PArgs(_, _, _)
+RECURSIVE PType(_, _), PList(_, _, _), PFields(_, _, _), PMeths(_, _, _), PArgs(_, _, _), PSig(_, _)
 \* type arguments up to "]"
 PArgs(ts, p, acc) ==
   LET r == PType(ts, p) IN
@@ -89,8 +89,15 @@ PFields(ts, p, acc) ==
 PMeths(ts, p, acc) ==
   IF Is(At(ts, p), "}") THEN [l |-> acc, p |-> p + 1]
   ELSE IF Is(At(ts, p), ";") THEN PMeths(ts, p + 1, acc)
-  ELSE IF IsId(At(ts, p)) /\ Is(At(ts, p + 1), "(") THEN PMeths(ts, p + 3, Append(acc, [n |-> IdOf(At(ts, p)), emb |-> FALSE, t |-> B("int")]))
+  ELSE IF IsId(At(ts, p)) /\ Is(At(ts, p + 1), "(") THEN LET r == PSig(ts, p + 1) IN PMeths(ts, r.p, Append(acc, [n |-> IdOf(At(ts, p)), emb |-> FALSE, t |-> r.t]))
   ELSE LET r == PType(ts, p) IN PMeths(ts, r.p, Append(acc, [n |-> "", emb |-> TRUE, t |-> r.t]))
+\* a signature from its "(": parameters, then no result, one result type or a parenthesised result list
+PSig(ts, p) ==
+  LET ps == PList(ts, p + 1, <<>>)
+      q == ps.p + 1                                    \* after ")"
+  IN IF Is(At(ts, q), "(") THEN LET rs == PList(ts, q + 1, <<>>) IN [t |-> Func(ps.l, rs.l, ps.va), p |-> rs.p + 1]
+     ELSE IF StartsType(At(ts, q)) THEN LET r == PType(ts, q) IN [t |-> Func(ps.l, <<r.t>>, ps.va), p |-> r.p]
+     ELSE [t |-> Func(ps.l, <<>>, ps.va), p |-> q]
 PType(ts, p) ==
   LET tok == At(ts, p) IN
   CASE Is(tok, "(") -> LET r == PType(ts, p + 1) IN [t |-> r.t, p |-> r.p + 1]
@@ -103,12 +110,7 @@ PType(ts, p) ==
     [] Is(tok, "chan") -> IF Is(At(ts, p + 1), "<-") THEN LET r == PType(ts, p + 2) IN [t |-> Chan("send", r.t), p |-> r.p]
                        ELSE LET r == PType(ts, p + 1) IN [t |-> Chan("both", r.t), p |-> r.p]
     [] Is(tok, "<-") -> LET r == PType(ts, p + 2) IN [t |-> Chan("recv", r.t), p |-> r.p]      \* "<-" "chan" T
-    [] Is(tok, "func") ->
-         LET ps == PList(ts, p + 2, <<>>)
-             q == ps.p + 1                                    \* after ")"
-         IN IF Is(At(ts, q), "(") THEN LET rs == PList(ts, q + 1, <<>>) IN [t |-> Func(ps.l, rs.l, ps.va), p |-> rs.p + 1]
-            ELSE IF StartsType(At(ts, q)) THEN LET r == PType(ts, q) IN [t |-> Func(ps.l, <<r.t>>, ps.va), p |-> r.p]
-            ELSE [t |-> Func(ps.l, <<>>, ps.va), p |-> q]
+    [] Is(tok, "func") -> PSig(ts, p + 1)
     [] Is(tok, "struct") -> LET r == PFields(ts, p + 2, <<>>) IN [t |-> [k |-> "struct", fs |-> r.l], p |-> r.p]
     [] Is(tok, "interface") -> LET r == PMeths(ts, p + 2, <<>>) IN [t |-> [k |-> "iface", ms |-> r.l], p |-> r.p]
     [] IsId(tok) ->
@@ -127,7 +129,8 @@ Q(pkg, n) == [k |-> "qual", pkg |-> pkg, n |-> n]
 N(n) == [k |-> "named", n |-> n]
 F(n, t, tag) == [n |-> n, emb |-> FALSE, t |-> t, tag |-> tag]
 E(t) == [n |-> "", emb |-> TRUE, t |-> t, tag |-> ""]
-M(n) == [n |-> n, emb |-> FALSE, t |-> B("int")]
+M(n) == [n |-> n, emb |-> FALSE, t |-> Func(<<>>, <<>>, FALSE)]
+MS(n, f) == [n |-> n, emb |-> FALSE, t |-> f]
 EI(t) == [n |-> "", emb |-> TRUE, t |-> t]
 Tags == {"", "k:v", "back`quote", "cr\rlf", "line\nfeed"}
 LeafSet == IF Leaves = "small" THEN {B("int"), Chan("recv", B("int")), N("MyInt"), Q("ax", "T")}
@@ -148,7 +151,9 @@ Apply(c, x, y) ==
                       [k |-> "inst", pkg |-> "", n |-> "P2", args |-> <<y, x>>]}
     [] c = "iface" -> IF x.k \in {"named", "qual"} /\ x.n \in {"MyIface", "I", "error"}
                       THEN {[k |-> "iface", ms |-> <<EI(x), M("Zed")>>], [k |-> "iface", ms |-> <<M("Alpha"), EI(x)>>]}
-                      ELSE {[k |-> "iface", ms |-> <<M("Alpha"), M("Beta")>>]}
+                      ELSE {[k |-> "iface", ms |-> <<M("Alpha"), M("Beta")>>],
+                            [k |-> "iface", ms |-> <<MS("Printf", Func(<<y, Slice(x)>>, <<>>, TRUE))>>],                 \* Printf(y, ...x)
+                            [k |-> "iface", ms |-> <<MS("Get", Func(<<x>>, <<y, x>>, FALSE)), M("Zed")>>]}
     [] OTHER -> {}
 RECURSIVE Terms(_)
 Terms(d) == IF d = 0 THEN LeafSet
